@@ -461,3 +461,22 @@ pub fn rss_gb() -> f64 {
 pub fn rss_cap_gb() -> f64 {
     std::env::var("VERIF_RSS_CAP_GB").ok().and_then(|s| s.parse().ok()).unwrap_or(16.0)
 }
+
+/// Concurrent set of 128-bit state keys (sharded mutexes); `insert` returns true for the first inserter.
+pub struct KeySet {
+    shards: Vec<Mutex<std::collections::HashSet<u128>>>,
+}
+impl KeySet {
+    pub fn new() -> KeySet {
+        KeySet { shards: (0..256).map(|_| Mutex::new(std::collections::HashSet::new())).collect() }
+    }
+    pub fn insert(&self, k: u128) -> bool {
+        self.shards[(k as usize) & 255].lock().unwrap().insert(k)
+    }
+    pub fn contains(&self, k: u128) -> bool {
+        self.shards[(k as usize) & 255].lock().unwrap().contains(&k)
+    }
+    pub fn len(&self) -> usize {
+        self.shards.iter().map(|s| s.lock().unwrap().len()).sum()
+    }
+}
